@@ -1,6 +1,7 @@
 import GqlProofs.ValSpec.Local
 import GqlProofs.ValSpec.Stateful
 import GqlProofs.ValSpec.Spreads
+import GqlProofs.ValSpec.KnownDirs
 /-
   C08 — validation accepts exactly what the rules allow.
 
@@ -19,6 +20,18 @@ import GqlProofs.ValSpec.Spreads
                                  is what the rule really tests: `_iff`; under LoneAnonymousOperation
                                  it is the specification predicate: `C08_UniqueOperationNames`)
     C08_KnownFragmentNames       §5.5.2.1
+  and, for documents whose operation kinds are the ones the parser produces (`query`, `mutation`,
+  `subscription`, shorthand — `parserOpKinds`; the walker's directive location of any other kind
+  is the empty string):
+    C08_UniqueArgumentNames      §5.4.2
+    C08_KnownDirectives          §5.7.1 ∧ §5.7.2
+    C08_UniqueDirectivesPerLocation   §5.7.3, for documents whose directives are all defined (the
+                                 rule counts an undefined directive as non-repeatable, the
+                                 specification cannot know; `_complete`: without that hypothesis a
+                                 silent rule still implies the specification predicate)
+  These rest on the coverage lemmas of `GqlProofs/ValSpec` (`walkDoc_cov`, `walkDoc_hasItems`,
+  `docSels_iff`, `directiveSites_iff`): the field / directive / directive-list events of a run are
+  exactly the field nodes and directive lists the specification quantifies over.
 
   NOT finished (the full statement, kept as the goal):
     C08_verdict : Closed s → (validate defaultRules s d = .ok [] ↔ Spec.specValid s d = true)
@@ -147,6 +160,44 @@ theorem C08_KnownFragmentNames (s : Schema) (d : QueryDoc) :
   unfold knownFragmentNames
   rw [validate_stateless_nil s d _ _ evs hw]
   exact knownFragmentNames_iff s d evs hw
+
+/-- §5.4.2 — UniqueArgumentNames reports nothing iff no field or directive is given two arguments
+    of one name -/
+theorem C08_UniqueArgumentNames (s : Schema) (d : QueryDoc) (hk : ∀ op ∈ d.ops, op.op ∈ parserOpKinds) :
+    validate [uniqueArgumentNames] s d = .ok [] ↔ Spec.argumentUniqueness s d = true := by
+  obtain ⟨evs, hw⟩ := walkDoc_isSome s.view d
+  unfold uniqueArgumentNames
+  rw [validate_stateless_nil s d _ _ evs hw]
+  exact uniqueArgumentNames_iff s d evs hw hk
+
+/-- §5.7.1 and §5.7.2 — KnownDirectives reports nothing iff every directive is defined and is used
+    in a location its definition lists -/
+theorem C08_KnownDirectives (s : Schema) (d : QueryDoc) (hk : ∀ op ∈ d.ops, op.op ∈ parserOpKinds) :
+    validate [knownDirectives] s d = .ok [] ↔
+      (Spec.directivesAreDefined s d = true ∧ Spec.directivesInValidLocations s d = true) := by
+  obtain ⟨evs, hw⟩ := walkDoc_isSome s.view d
+  rw [validate_knownDirectives s d evs hw]
+  exact knownDirectives_iff s d evs hw hk
+
+/-- §5.7.3 — for a document whose directives are all defined, UniqueDirectivesPerLocation reports
+    nothing iff no location carries a non-repeatable directive twice -/
+theorem C08_UniqueDirectivesPerLocation (s : Schema) (d : QueryDoc) (hk : ∀ op ∈ d.ops, op.op ∈ parserOpKinds)
+    (hdef : Spec.directivesAreDefined s d = true) :
+    validate [uniqueDirectivesPerLocation] s d = .ok [] ↔ Spec.directivesUniquePerLocation s d = true := by
+  obtain ⟨evs, hw⟩ := walkDoc_isSome s.view d
+  unfold uniqueDirectivesPerLocation
+  rw [validate_stateless_nil s d _ _ evs hw]
+  exact uniqueDirectivesPerLocation_iff s d evs hw hk hdef
+
+/-- §5.7.3, one direction without the hypothesis: whenever UniqueDirectivesPerLocation reports
+    nothing the specification predicate holds (no violation goes unreported) -/
+theorem C08_UniqueDirectivesPerLocation_complete (s : Schema) (d : QueryDoc)
+    (hk : ∀ op ∈ d.ops, op.op ∈ parserOpKinds) (h : validate [uniqueDirectivesPerLocation] s d = .ok []) :
+    Spec.directivesUniquePerLocation s d = true := by
+  obtain ⟨evs, hw⟩ := walkDoc_isSome s.view d
+  unfold uniqueDirectivesPerLocation at h
+  rw [validate_stateless_nil s d _ _ evs hw] at h
+  exact uniqueDirectivesPerLocation_complete s d evs hw hk h
 
 /-- the one-rule theorems transfer to any rule set with distinct names (C18): here for the default
     rule set and LoneAnonymousOperation -/
